@@ -21,6 +21,8 @@ inductive POut (σ α : Type) where
   | ok (s : σ) (a : α)
   | err (s : σ)
   | panic
+  /-- the Go call never returns (an endless loop; the harness's watchdog reports `blocked`) -/
+  | spin
   deriving Repr
 
 /-- `ProtoNode` -/
@@ -243,6 +245,7 @@ def canonicalChain (pr : PA) (anchorRoot : Root) (anchorSlot : Nat) : POut PA (L
   match pr.findHead anchorRoot anchorSlot with
   | .err pr' => .err pr'
   | .panic => .panic
+  | .spin => .spin
   | .ok pr' head =>
     let anchorIndex := (aGet pr'.indices ⟨anchorSlot, anchorRoot⟩).getD 0
     let index := (aGet pr'.indices head).getD 0
@@ -312,6 +315,7 @@ def canonAtSlot (pr : PA) (anchor : Root) (slot : Nat) (withBlock : Bool) : POut
       match pr.findHead anchor anchorSlot with
       | .err pr' => .err pr'
       | .panic => .panic
+      | .spin => .spin
       | .ok pr' head =>
         if head.slot ≤ slot then .ok pr' head else
         let index := (aGet pr'.indices head).getD 0
@@ -339,6 +343,24 @@ def subWalk (pr : PA) (anchorIndex : Idx) (anchorBest : Option Idx) : Nat → Op
           if anchorBest.isSome && tmp.bestDesc = anchorBest then some true
           else subWalk pr anchorIndex anchorBest fuel tmp.tparent
 
+/-- does the parent walk of `inSubtree` run out of fuel? With the fuel handed over by `inSubtreeIdx`
+(more than the number of distinct indices inside the array) this means the Go loop revisits an index and
+never terminates (possible only after an effective prune, where `pr.nodes[i]` is indexed without the offset). -/
+def subSpins (pr : PA) (anchorIndex : Idx) (anchorBest : Option Idx) : Nat → Option Idx → Bool
+  | 0, oi => (match oi with | some i => decide (i ≥ anchorIndex) | none => false)
+  | fuel + 1, oi =>
+    match oi with
+    | none => false
+    | some i =>
+      if i < anchorIndex then false
+      else if i = anchorIndex then false
+      else
+        match pr.nodes[i]? with
+        | none => false
+        | some tmp =>
+          if anchorBest.isSome && tmp.bestDesc = anchorBest then false
+          else subSpins pr anchorIndex anchorBest fuel tmp.tparent
+
 /-- `inSubtree` (on indices); `none` = panic -/
 def inSubtreeIdx (pr : PA) (anchorIndex lookupIndex : Idx) : Option (Bool × Bool) :=
   if anchorIndex = lookupIndex then some (false, true) else
@@ -354,13 +376,28 @@ def inSubtreeIdx (pr : PA) (anchorIndex lookupIndex : Idx) : Option (Bool × Boo
           (anchorNode.bestDesc = some lookupIndex || anchorNode.bestDesc = lookupNode.bestDesc) then
         some (false, true)
       else
-        match pr.subWalk anchorIndex anchorNode.bestDesc (lookupIndex + 1) lookupNode.tparent with
+        match pr.subWalk anchorIndex anchorNode.bestDesc (lookupIndex + 1 + pr.nodes.length) lookupNode.tparent with
         | none => none
         | some b => some (false, b)
 
+/-- the call `inSubtree(anchorIndex, lookupIndex)` never returns (see `subSpins`) -/
+def inSubtreeSpins (pr : PA) (anchorIndex lookupIndex : Idx) : Bool :=
+  if anchorIndex = lookupIndex then false else
+  match pr.getNode anchorIndex, pr.getNode lookupIndex with
+  | some anchorNode, some lookupNode =>
+    if anchorNode.ref.slot ≥ lookupNode.ref.slot then false
+    else if anchorIndex ≥ lookupIndex then false
+    else if anchorNode.bestDesc.isSome &&
+        (anchorNode.bestDesc = some lookupIndex || anchorNode.bestDesc = lookupNode.bestDesc) then false
+    else pr.subSpins anchorIndex anchorNode.bestDesc (lookupIndex + 1 + pr.nodes.length) lookupNode.tparent
+  | _, _ => false
+
 /-- `InSubtree` (on roots) -/
 def inSubtree (pr : PA) (anchor root : Root) : POut PA (Bool × Bool) :=
-  if anchor = root then .ok pr (false, true) else
+  if anchor = root then
+    (match aGet pr.blockSlots anchor with
+     | some _ => .ok pr (false, true)
+     | none => .ok pr (true, false)) else
   let step (pr : PA) : POut PA (Bool × Bool) :=
     match aGet pr.blockSlots anchor with
     | none => .ok pr (true, false)
@@ -374,6 +411,7 @@ def inSubtree (pr : PA) (anchor root : Root) : POut PA (Bool × Bool) :=
           match aGet pr.indices ⟨slot, root⟩ with
           | none => .ok pr (true, false)
           | some lookupIndex =>
+            if pr.inSubtreeSpins anchorIndex lookupIndex then .spin else
             match pr.inSubtreeIdx anchorIndex lookupIndex with
             | none => .panic
             | some r => .ok pr r
@@ -382,10 +420,16 @@ def inSubtree (pr : PA) (anchor root : Root) : POut PA (Bool × Bool) :=
     | (pr', true) => step pr'
     | (pr', false) => .ok pr' (true, false)
 
-/-- the loop of `Search` over `pr.nodes[i]`, `i = k, k+1, …`; `none` = panic -/
+/-- how the loop of `Search` ends -/
+inductive LoopRes where
+  | done (nonCanon canon : List NodeRef)
+  | oob
+  | spin
+
+/-- the loop of `Search` over `pr.nodes[i]`, `i = k, k+1, …` -/
 def searchLoop (pr : PA) (anchorIndex headIndex : Idx) (head : NodeRef) (parentRoot : Option Root)
-    (slot : Option Nat) : List Node → List NodeRef → List NodeRef → Option (List NodeRef × List NodeRef)
-  | [], nc, c => some (nc, c)
+    (slot : Option Nat) : List Node → List NodeRef → List NodeRef → LoopRes
+  | [], nc, c => .done nc c
   | node :: rest, nc, c =>
     let next := searchLoop pr anchorIndex headIndex head parentRoot slot rest
     if node.ref.root = node.parentRoot then next nc c else
@@ -404,12 +448,13 @@ def searchLoop (pr : PA) (anchorIndex headIndex : Idx) (head : NodeRef) (parentR
         some ((match parentRoot with | some p => node.parentRoot ≠ p | none => false) ||
               (match slot with | some s => node.ref.slot ≠ s | none => false))
     match skip with
-    | none => none
+    | none => .oob
     | some true => next nc c
     | some false =>
       let index := (aGet pr.indices node.ref).getD 0
+      if pr.inSubtreeSpins anchorIndex index then .spin else
       match pr.inSubtreeIdx anchorIndex index with
-      | none => none
+      | none => .oob
       | some (_, false) => next nc c
       | some (_, true) =>
         if node.ref = head || node.bestDesc = some headIndex then next nc (c ++ [node.ref])
@@ -421,12 +466,14 @@ def search (pr : PA) (anchor : NodeRef) (parentRoot : Option Root) (slot : Optio
   match pr.findHead anchor.root anchor.slot with
   | .err pr' => .err pr'
   | .panic => .panic
+  | .spin => .spin
   | .ok pr' head =>
     let anchorIndex := (aGet pr'.indices anchor).getD 0
     let headIndex := (aGet pr'.indices head).getD 0
     match pr'.searchLoop anchorIndex headIndex head parentRoot slot pr'.nodes [] [] with
-    | none => .panic
-    | some r => .ok pr' r
+    | .oob => .panic
+    | .spin => .spin
+    | .done nc c => .ok pr' (nc, c)
 
 /-- one call of the sink -/
 def sinkCall (pr : PA) (ref : NodeRef) (canonical : Bool) : PA × Bool :=
@@ -463,6 +510,7 @@ def onPrune (pr : PA) (anchorRoot : Root) (anchorSlot : Nat) : POut PA Unit :=
     match pr.findHead anchorRoot anchorSlot with
     | .err pr' => .err pr'
     | .panic => .panic
+    | .spin => .spin
     | .ok pr1 head =>
       match aGet pr1.indices head with
       | none => .err pr1
@@ -592,23 +640,25 @@ def setPinBody (fc : FC) (root : Root) (slot : Nat) : Out FC Unit :=
 
 def setPin (fc : FC) (root : Root) (slot : Nat) : Out FC Unit := fc.withLock (·.setPinBody root slot)
 
+/-- the subtree check of `updateJustified` for a new checkpoint `cp` (skipped when the checkpoint is unchanged) -/
+def checkCp (fc : FC) (changed : Bool) (cp : Checkpoint) (k : FC → Out FC Unit) : Out FC Unit :=
+  if changed then
+    match fc.pa.inSubtree fc.finalized.root cp.root with
+    | .panic => .panic
+    | .spin => .blocked
+    | .err pa => .err { fc with pa := pa }
+    | .ok pa (unknown, inS) =>
+      let fc := { fc with pa := pa }
+      if unknown then .err fc
+      else if !inS || fc.finalized.epoch > cp.epoch then .err fc
+      else k fc
+  else k fc
+
 /-- `updateJustified(finalized, justified, balances)` (unexported; runs under the caller's lock) -/
 def updateJustifiedInner (fc : FC) (finalized justified : Checkpoint) (balances : Option (List Nat)) : Out FC Unit :=
   if justified.epoch < finalized.epoch then .err fc else
-  -- check a new checkpoint against the finalized subtree
-  let check (fc : FC) (changed : Bool) (cp : Checkpoint) (k : FC → Out FC Unit) : Out FC Unit :=
-    if changed then
-      match fc.pa.inSubtree fc.finalized.root cp.root with
-      | .panic => .panic
-      | .err pa => .err { fc with pa := pa }
-      | .ok pa (unknown, inS) =>
-        let fc := { fc with pa := pa }
-        if unknown then .err fc
-        else if !inS || fc.finalized.epoch > cp.epoch then .err fc
-        else k fc
-    else k fc
-  check fc (fc.finalized ≠ finalized) finalized fun fc =>
-  check fc (fc.justified ≠ justified) justified fun fc =>
+  fc.checkCp (fc.finalized ≠ finalized) finalized fun fc =>
+  fc.checkCp (fc.justified ≠ justified) justified fun fc =>
   match balances with
   | none => .err fc
   | some newBals =>
@@ -618,6 +668,7 @@ def updateJustifiedInner (fc : FC) (finalized justified : Checkpoint) (balances 
       let fc := { fc with votes := votes', changed := false }
       match fc.pa.applyScoreChanges deltas justified.epoch finalized.epoch with
       | .panic => .panic
+      | .spin => .blocked
       | .err pa => .err { fc with pa := pa }
       | .ok pa _ => .ok { fc with pa := pa, balances := newBals, justified := justified, finalized := finalized } ()
 
@@ -637,6 +688,7 @@ def updateJustified (fc : FC) (trigger : Root) (justified finalized : Checkpoint
         let fc := { fc with pin := none }
         match fc.pa.onPrune finalized.root (finalized.epoch * fc.spe) with
         | .panic => .panic
+        | .spin => .blocked
         | .err pa => .err { fc with pa := pa }
         | .ok pa _ => .ok { fc with pa := pa } ()
       else .ok fc ()
@@ -645,6 +697,7 @@ def updateJustified (fc : FC) (trigger : Root) (justified finalized : Checkpoint
     if trigger ≠ pin.root then
       match fc.pa.inSubtree pin.root trigger with
       | .panic => .panic
+      | .spin => .blocked
       | .err pa => .err { fc with pa := pa }
       | .ok pa (unknown, inS) =>
         let fc := { fc with pa := pa }
@@ -661,6 +714,7 @@ def updateVotesMaybe (fc : FC) : Out FC Unit :=
     let fc := { fc with votes := votes', changed := false }
     match fc.pa.applyScoreChanges deltas fc.justified.epoch fc.finalized.epoch with
     | .panic => .panic
+    | .spin => .blocked
     | .err pa => .err { fc with pa := pa }
     | .ok pa _ => .ok { fc with pa := pa } ()
 
@@ -670,6 +724,7 @@ def liftPA {α : Type} (fc : FC) (r : POut PA α) : Out FC α :=
   | .ok pa a => .ok { fc with pa := pa } a
   | .err pa => .err { fc with pa := pa }
   | .panic => .panic
+  | .spin => .blocked
 
 /-- `updateVotesMaybe` followed by a proto-array call -/
 def afterVotes {α : Type} (fc : FC) (f : PA → POut PA α) : Out FC α :=
